@@ -112,7 +112,8 @@ def chk_parse_bytes(b, origin):
         if ref_ok and origin == "arbitrary":
             try:
                 body_start = hd.read_varint(b)[1]
-                canonical = hd.script_raw(rcmds) == b[body_start:rpos]
+                # canonical = the shortest length prefix AND minimal pushes (a longer-than-necessary prefix may be refused)
+                canonical = hd.varint(rpos - body_start) + hd.script_raw(rcmds) == b[:rpos]
             except ValueError:
                 canonical = False
             if canonical and all(not isinstance(c, bytes) or 1 <= len(c) <= 520 for c in rcmds) and \
